@@ -37,6 +37,8 @@
             b.served.fetch_add(1, Ordering::SeqCst);
             return;
         }
+        // 5 / 6 = a 103 Early Hints header section first (6: after a pause of 100 ms), then the final answer
+        if b.special == 5 || b.special == 6 { let mut eh = Vec::new(); lit(&mut eh, b":status", b"103"); lit(&mut eh, b"link", b"</style.css>; rel=preload"); let _ = conn.write_all(&frame(0x1, 0x4, sid, &eh)); if b.special == 6 { thread::sleep(Duration::from_millis(100)); } }
         let mut hb = vec![0x88u8];   // :status 200 (static table)
         if b.with_length { lit(&mut hb, b"content-length", b.body.len().to_string().as_bytes()); }
         let _ = conn.write_all(&frame(0x1, 0x4, sid, &hb));
@@ -220,7 +222,7 @@
         let mode_keepalive = std::env::var("VERIF_NATIVE_ARGS").map(|a| a.contains("keepalive")).unwrap_or(false) || !mode_flow;
         let (mut n, mut answered, mut fails): (u64, u64, Vec<(String, String)>) = (0, 0, Vec::new());
         // ---- HTTP/1.1 front
-        for (with_length, body_len, post_len, initial_window, flow, special) in [(true, 5usize, 0usize, None, false, 0u8), (false, 5, 0, None, false, 0), (true, 40_000, 0, None, false, 0), (true, 5, 3, None, false, 0), (true, 5, 0, None, false, 1), (true, 0, 0, None, false, 2), (true, 5, 0, None, false, 3), (false, 5, 0, None, false, 3), (true, 5, 0, None, false, 4), (true, 5, 5_000, Some(1_000u32), true, 0), (true, 5, 100_000, Some(70_000u32), true, 0), (true, 1_000_000, 0, None, true, 0), (false, 300_000, 0, None, true, 0)] {
+        for (with_length, body_len, post_len, initial_window, flow, special) in [(true, 5usize, 0usize, None, false, 0u8), (false, 5, 0, None, false, 0), (true, 40_000, 0, None, false, 0), (true, 5, 3, None, false, 0), (true, 5, 0, None, false, 1), (true, 0, 0, None, false, 2), (true, 5, 0, None, false, 3), (false, 5, 0, None, false, 3), (true, 5, 0, None, false, 4), (true, 5, 0, None, false, 5), (true, 5, 0, None, false, 6), (true, 5, 5_000, Some(1_000u32), true, 0), (true, 5, 100_000, Some(70_000u32), true, 0), (true, 1_000_000, 0, None, true, 0), (false, 300_000, 0, None, true, 0)] {
             if (flow && !mode_flow) || (!flow && !mode_keepalive) { continue; }
             let front_address = create_local_address();
             let (config, listeners, state) = Worker::empty_config();
@@ -231,7 +233,7 @@
                               served: Arc::new(AtomicUsize::new(0)), uploaded: Arc::new(AtomicUsize::new(0)), events: Arc::new(Mutex::new(Vec::new())) };
             let (stop, acceptor) = start_backend(backends[0], &b);
             let method = if special == 1 { "HEAD" } else if post_len > 0 { "POST" } else { "GET" };
-            let answer = match special { 1 => format!("200, content-length: {body_len} and no body (the answer to HEAD)"), 2 => "204 and no body".to_string(), 4 => format!("304, content-length: {body_len} and no body"),
+            let answer = match special { 1 => format!("200, content-length: {body_len} and no body (the answer to HEAD)"), 2 => "204 and no body".to_string(), 4 => format!("304, content-length: {body_len} and no body"), 5 | 6 => format!("103 Early Hints (link: ...){}, then 200, content-length and a {body_len}-octet body", if special == 6 { ", 100 ms later" } else { "" }),
                                          3 => format!("200, {}, a {body_len}-octet body and a trailer section (x-checksum: abc123)", if with_length { "content-length" } else { "no content-length" }),
                                          _ => format!("200, {} and a {body_len}-octet body", if with_length { "content-length" } else { "no content-length" }) };
             let name = format!("HTTP/1.1 client: {per_connection} {} requests one after the other on one keep-alive connection; the h2c backend answers each with {answer}{}",
@@ -249,6 +251,12 @@
                 req.extend_from_slice(&upload);
                 let sent = client.write_all(&req).is_ok();
                 let (mut head, mut got, mut trailers) = if sent { reader.next(&mut client, special == 1) } else { reader.closed = true; (String::new(), None, Vec::new()) };
+                if (special == 5 || special == 6) && head.starts_with("HTTP/1.1 103") {
+                    // the interim response is a header section and nothing else (RFC 9112 §6.1: no Transfer-Encoding, no Content-Length in a 1xx)
+                    let lower = head.to_ascii_lowercase();
+                    if lower.contains("\ntransfer-encoding:") || lower.contains("\ncontent-length:") || !lower.contains("\nlink:") { fails.push((name.clone(), format!("request #{k}: the 103 interim response is relayed as {head:?}: a 1xx response carries no framing header, and the backend's link field must be there"))); break; }
+                    (head, got, trailers) = reader.next(&mut client, false);
+                }
                 if got.is_none() && reader.closed && head.is_empty() && k > 0 {
                     // sozu closed the idle connection between two requests (any server may): do what a client does — connect
                     // again and send the request again; the answer must still be the backend's
@@ -426,6 +434,6 @@
             let _ = worker.wait_for_server_stop();
         }
         let fl: Vec<String> = fails.iter().map(|(i, o)| format!("{{\"input\": {:?}, \"observed\": {:?}}}", i, o)).collect();
-        let bound = if mode_flow { format!("6 scenarios (5 x {per_connection} requests one after the other, 1 x 3 concurrent uploads) through a real worker to an h2c backend that accounts every flow-controlled octet it receives and never exceeds the windows sozu advertises: HTTP/1.1 keep-alive clients uploading 5000 / 100000 octets against a backend stream window of 1000 / 70000 and downloading 1000000 / 300000 octets (sozu must replenish its windows), and an HTTP/2 client with a 1 MiB stream window uploading 60000 octets per stream against a backend stream window of 10000, and three concurrent 40000-octet uploads against the backend's connection window of 65535") } else { format!("9 scenarios x {per_connection} requests one after the other on one keep-alive HTTP/1.1 connection through a real worker to an h2c backend, read by a strict HTTP/1.1 reader (GET / POST / HEAD, responses with / without content-length, 5 and 40000 octets, 204, 304 with content-length, trailer sections), and two concurrent HTTP/2 requests to an h2c backend that allows one stream per connection") };
+        let bound = if mode_flow { format!("6 scenarios (5 x {per_connection} requests one after the other, 1 x 3 concurrent uploads) through a real worker to an h2c backend that accounts every flow-controlled octet it receives and never exceeds the windows sozu advertises: HTTP/1.1 keep-alive clients uploading 5000 / 100000 octets against a backend stream window of 1000 / 70000 and downloading 1000000 / 300000 octets (sozu must replenish its windows), and an HTTP/2 client with a 1 MiB stream window uploading 60000 octets per stream against a backend stream window of 10000, and three concurrent 40000-octet uploads against the backend's connection window of 65535") } else { format!("11 scenarios x {per_connection} requests one after the other on one keep-alive HTTP/1.1 connection through a real worker to an h2c backend, read by a strict HTTP/1.1 reader (GET / POST / HEAD, responses with / without content-length, 5 and 40000 octets, 204, 304 with content-length, trailer sections, 103 Early Hints before the final answer), and two concurrent HTTP/2 requests to an h2c backend that allows one stream per connection") };
         println!("{{\"bound\": \"{bound}\", \"states\": {n}, \"pairs\": {n}, \"nontrivial_pairs\": {answered}, \"failures\": [{}]}}", fl.join(", "));
     }
